@@ -380,6 +380,17 @@ static void run_seq(void)
 	}
 	for (step = 0; step < len && !destroyed; step++) {
 		int c = allowed[vrt_choose(nallowed)], kind, key, id, r;
+		static char seqlog[400];
+		static int seqpos;
+
+		seqpos += snprintf(seqlog + seqpos, sizeof(seqlog) - (size_t)seqpos > 0 ? sizeof(seqlog) - (size_t)seqpos : 0, " %s%d",
+				   c < S_NKINDS * nkeys ? (const char *[]){ "add", "add_unique", "add_replace", "replace1st", "replace2nd", "del1st",
+				   "del2nd", "replace_badkey" }[c / nkeys] : c < S_NKINDS * nkeys + nrs ? "resize#" : "destroy",
+				   c < S_NKINDS * nkeys ? c % nkeys : c - S_NKINDS * nkeys);
+		if (seqpos > 380)
+			seqpos = 380;
+		vrt_sample("init=%d min=%d max=%d flags=%d mm=%d custom=%d hmap=%d; ops:%s; stored nodes now %d, buckets %lu", cfg_init, cfg_min, cfg_max,
+			   cfg_flags, cfg_mm, cfg_custom, cfg_hmap, seqlog, nmodel, ht_size_quiet());
 		struct cds_lfht_iter it;
 		struct cds_lfht_node *ret;
 
